@@ -62,6 +62,8 @@ ON = ("A2C", "PPO")
 
 def lr_of(p, kind="linear"):
     """the user-supplied learning-rate schedules of the campaign: linear, or a non-linear (discontinuous) one"""
+    if kind == "const":
+        return 7e-4                      # learning_rate given as a plain float: get_schedule_fn wraps it in a constant function
     return 1e-3 * (1.0 + p) if kind == "linear" else 1e-3 * (1.0 + p * p) + 2e-4 * (p > 0.5)
 
 
@@ -70,13 +72,17 @@ def lr_of(p, kind="linear"):
 def gen_run(rng, i):
     algo = rng.choice(["A2C", "PPO", "PPO", "DQN", "DQN", "SAC", "TD3", "DDPG"])
     n_envs = rng.choice([1, 1, 2, 3])
-    cfg = {"id": i, "algo": algo, "n_envs": n_envs, "ep_len": rng.choice([3, 4, 5, 7]), "sched": rng.choice(["linear", "quad"])}
+    cfg = {"id": i, "algo": algo, "n_envs": n_envs, "ep_len": rng.choice([3, 4, 5, 7]), "sched": rng.choice(["linear", "quad", "const"]), "vecnorm": rng.random() < 0.2}
     if algo in ON:
         cfg["n_steps"] = rng.choice([2, 3, 4, 5, 8])
         N = cfg["n_steps"] * n_envs
         cfg["batch_size"] = rng.choice([2, 3, 4, N, max(2, N // 2), N + 3])
         cfg["n_epochs"] = rng.choice([1, 2, 3])
         cfg["target_kl"] = rng.choice([None, None, None, 1e-12])
+        cfg["discrete_actions"] = rng.random() < 0.35
+        cfg["use_sde"] = (not cfg["discrete_actions"]) and rng.random() < 0.3
+        cfg["clip_range_vf"] = rng.random() < 0.4          # PPO: a second clip schedule (value function)
+        cfg["normalize_advantage"] = rng.random() < 0.5
         R = N
     else:
         tf = rng.choice([1, 2, 3, 4, 5, 8, "episode"])
@@ -85,6 +91,9 @@ def gen_run(rng, i):
         cfg["train_freq"] = tf
         cfg["gradient_steps"] = rng.choice([-1, -1, 0, 1, 2, 3])
         cfg["learning_starts"] = rng.choice([0, 3, 7, 10, 16])
+        cfg["action_noise"] = rng.choice([None, None, "normal", "ou"]) if algo != "DQN" else None
+        cfg["memopt"] = rng.random() < 0.25
+        cfg["use_sde"] = algo == "SAC" and rng.random() < 0.4
         R = (tf if tf != "episode" else cfg["ep_len"]) * n_envs
     calls = []
     for c in range(rng.choice([1, 1, 2, 3])):
@@ -114,7 +123,7 @@ def run_impl(cfg):
     warnings.filterwarnings("ignore", category=UserWarning)
     th.set_num_threads(1)
     algo = cfg["algo"]
-    discrete = algo in ("DQN",)
+    discrete = algo in ("DQN",) or bool(cfg.get("discrete_actions"))
     ep_len = cfg["ep_len"]
 
     class Env(gym.Env):
@@ -143,15 +152,31 @@ def run_impl(cfg):
         return 0.1 + 0.1 * float(p)
 
     venv = DummyVecEnv([Env] * cfg["n_envs"])
-    kw = dict(policy_kwargs=dict(net_arch=[8]), device="cpu", seed=cfg["id"] % 1000, learning_rate=lr_fn, verbose=0)
+    if cfg.get("vecnorm"):
+        from stable_baselines3.common.vec_env import VecNormalize
+
+        venv = VecNormalize(venv)
+    lr_arg = lr_of(0.0, "const") if cfg.get("sched") == "const" else lr_fn
+    kw = dict(policy_kwargs=dict(net_arch=[8]), device="cpu", seed=cfg["id"] % 1000, learning_rate=lr_arg, verbose=0)
+    sde = dict(use_sde=True, sde_sample_freq=2) if cfg.get("use_sde") else {}
     if algo == "A2C":
-        model = sb3.A2C("MlpPolicy", venv, n_steps=cfg["n_steps"], **kw)
+        model = sb3.A2C("MlpPolicy", venv, n_steps=cfg["n_steps"], normalize_advantage=bool(cfg.get("normalize_advantage")), **sde, **kw)
     elif algo == "PPO":
         model = sb3.PPO("MlpPolicy", venv, n_steps=cfg["n_steps"], batch_size=cfg["batch_size"], n_epochs=cfg["n_epochs"],
-                        target_kl=cfg["target_kl"], clip_range=clip_fn, **kw)
+                        target_kl=cfg["target_kl"], clip_range=clip_fn, clip_range_vf=clip_fn if cfg.get("clip_range_vf") else None,
+                        normalize_advantage=bool(cfg.get("normalize_advantage", True)), **sde, **kw)
     else:
         tf = cfg["train_freq"] if cfg["train_freq"] != "episode" else (1, "episode")
         okw = dict(train_freq=tf, gradient_steps=cfg["gradient_steps"], learning_starts=cfg["learning_starts"], batch_size=4, buffer_size=200, **kw)
+        if cfg.get("action_noise"):
+            from stable_baselines3.common.noise import NormalActionNoise, OrnsteinUhlenbeckActionNoise
+
+            cls = NormalActionNoise if cfg["action_noise"] == "normal" else OrnsteinUhlenbeckActionNoise
+            okw["action_noise"] = cls(np.zeros(2), 0.1 * np.ones(2))          # with n_envs > 1 the algorithm wraps it in a VectorizedActionNoise
+        if cfg.get("memopt"):
+            okw.update(optimize_memory_usage=True, replay_buffer_kwargs=dict(handle_timeout_termination=False))
+        if algo == "SAC" and cfg.get("use_sde"):
+            okw.update(use_sde=True, sde_sample_freq=2)
         model = {"DQN": sb3.DQN, "SAC": sb3.SAC, "TD3": sb3.TD3, "DDPG": sb3.DDPG}[algo]("MlpPolicy", venv, **okw)
     tick_opt = model.policy.optimizer if algo in ("A2C", "PPO", "DQN") else model.critic.optimizer
     all_opts = [model.policy.optimizer] if algo in ("A2C", "PPO", "DQN") else [model.actor.optimizer, model.critic.optimizer]
@@ -412,6 +437,37 @@ def compare_model(cfg, impl, vals):
 
 # ---------------------------------------------------------------- driver
 
+def api_guards():
+    """illegal train_freq values are refused when learn() starts (fixed inputs)"""
+    import gymnasium as gym
+    import numpy as np
+    from gymnasium import spaces
+
+    import stable_baselines3 as sb3
+
+    class E(gym.Env):
+        observation_space, action_space = spaces.Box(-1, 1, (2,), dtype=np.float32), spaces.Discrete(2)
+
+        def reset(self, *, seed=None, options=None):
+            return self.observation_space.sample(), {}
+
+        def step(self, a):
+            return self.observation_space.sample(), 0.0, False, True, {}
+
+    probs = []
+    for tf in ((1, "epoch"), (1.5, "step")):
+        try:
+            sb3.DQN("MlpPolicy", E(), train_freq=tf, policy_kwargs=dict(net_arch=[4]), device="cpu", learning_starts=0).learn(2)
+            probs.append(("oracle-guard-train-freq-accepted", f"train_freq={tf!r} was accepted"))
+        except ValueError:
+            pass
+    m = sb3.DQN("MlpPolicy", E(), train_freq=(2, "step"), policy_kwargs=dict(net_arch=[4]), device="cpu", learning_starts=0)
+    m.learn(3)
+    if m.num_timesteps != 4:
+        probs.append(("oracle-guard-train-freq-tuple", f"train_freq=(2, 'step'), total 3: ended at {m.num_timesteps}, expected 4"))
+    return probs
+
+
 def load_corpus():
     p = os.path.join(common.VERIF, "corpus", "C12.jsonl")
     return [json.loads(l) for l in open(p) if l.strip()] if os.path.exists(p) else []
@@ -454,6 +510,9 @@ def main():
     runs = corpus + [gen_run(chk.rng, i) for i in range(n_r)]
     impls, results = run_cases(chk, runs)
     new = 0
+    for sig, msg in api_guards():
+        chk.violation(sig, msg, {"fixed_input": "harness/c12.py api_guards()"}, found_input=True)
+        new += 1
     hist = {"algo": {}, "n_envs": {}, "learn_calls": 0, "calls_without_reset": 0, "calls_stopped_by_callback": 0, "total_not_multiple_of_rollout": 0,
             "train_calls": 0, "optimizer_steps": 0, "schedule_args": 0, "episodic_train_freq": 0, "gradient_steps": {}}
     distinct = set()
